@@ -908,6 +908,10 @@ func (x *SExec) doWrite(i int, op SOp) *Fail {
 	t0 := time.Now()
 	if op.K == "write" {
 		data = payload(i, op.Seed, off, length)
+		if op.Seed < 0 {
+			// rewrite what is there (programs whose blocks carry the racing writers' stamps)
+			data = append([]byte{}, x.Live.B[off:off+length]...)
+		}
 	}
 	returned := make(chan struct{})
 	go func() {
